@@ -40,10 +40,20 @@ structure Head where
   contentType : Option Bytes
 deriving DecidableEq, Repr
 
-/-- server misbehaviour.  `truncatedBody h`: a complete head `h` announcing Content-Length n,
-fewer than n body bytes, then the connection is closed. -/
-inductive Fault | refused | closedBeforeReply | truncatedBody (h : Head) | garbageStatusLine
+/-- server misbehaviour.
+`truncatedBody h`: a complete head `h`, then a body that ends early in a way the framing makes
+detectable without looking inside a chunk — fewer bytes than Content-Length, or a chunked body cut
+between chunks (no terminating 0-chunk) — then the connection is closed.
+`truncatedChunked h received`: a complete head `h` with `Transfer-Encoding: chunked`; the connection
+is closed INSIDE a chunk, after `received` decoded body bytes. -/
+inductive Fault
+  | refused | closedBeforeReply | truncatedBody (h : Head) | truncatedChunked (h : Head) (received : Bytes)
+  | garbageStatusLine
 deriving DecidableEq, Repr
+
+def Fault.isTruncatedChunked : Fault → Bool
+  | .truncatedChunked _ _ => true
+  | _ => false
 
 /-- `http::Response<Vec<u8>>` at the observables of the property -/
 structure Response where
@@ -135,7 +145,11 @@ returns for a complete, well-formed reply and for each fault.
 * reqwest (hyper) and libcurl: `Ok` for every status.
 * ureq 2.x: `Err(Error::Status(code, response))` for status ≥ 400 ([probed]; ureq/src/error.rs).
 * a body shorter than its Content-Length: hyper and ureq deliver the head and fail the body read;
-  libcurl fails `perform()` (CURLE_PARTIAL_FILE). -/
+  libcurl fails `perform()` (CURLE_PARTIAL_FILE).
+* a chunked body cut inside a chunk: hyper and libcurl fail as above; ureq 2.12's
+  `chunked::Decoder::read` passes the inner `Ok(0)` on as end-of-body, so the reader ends normally
+  with the bytes received so far ([probed]; ureq-2.12.1/src/chunked/decoder.rs "second
+  possibility") — a silently shortened body, finding F6. -/
 def lib (a : Id) : WireReply ⊕ Fault → LibResult
   | .inl r =>
       match a with
@@ -145,6 +159,11 @@ def lib (a : Id) : WireReply ⊕ Fault → LibResult
       match a with
       | .curl => .transportErr
       | .ureq => if 400 ≤ h.status then .statusErr h none else .ok h none
+      | _ => .ok h none
+  | .inr (.truncatedChunked h received) =>
+      match a with
+      | .curl => .transportErr
+      | .ureq => if 400 ≤ h.status then .statusErr h (some received) else .ok h (some received)
       | _ => .ok h none
   | .inr _ => .transportErr
 
